@@ -1116,14 +1116,23 @@ func TestVerif_C04(t *testing.T) {
 			n++
 		}
 	}
-	verifkit.Note("C04", "roundtrip", "registrations", len(combos))
-	verifkit.Note("C04", "roundtrip", "packet_types", len(types))
-	verifkit.Note("C04", "roundtrip", "values_per_registration", k)
+	if shard == 0 { // the driver sums numeric notes over shards
+		verifkit.Note("C04", "roundtrip", "registrations", len(combos))
+		verifkit.Note("C04", "roundtrip", "packet_types", len(types))
+		verifkit.Note("C04", "roundtrip", "values_per_registration", k)
+	}
 	verifkit.Flush()
 
 	// rapid-driven sampling over the same space: gives shrinking for anything the sweep missed
 	verifkit.Check(t, "C04", "roundtrip-random", c04Rule, func(rt *rapid.T) c04Case {
-		combo := combos[rapid.IntRange(0, len(combos)-1).Draw(rt, "registration")]
+		// rapid's integer generators favour small values: hash drawn bytes for an even spread
+		hb := rapid.SliceOfN(rapid.Byte(), 4, 4).Draw(rt, "registration")
+		h := uint32(2166136261)
+		for _, x := range hb {
+			h = (h ^ uint32(x)) * 16777619
+		}
+		h ^= h >> 15
+		combo := combos[int(h%uint32(len(combos)))]
 		entropy := c04EntropyGen.Draw(rt, "entropy")
 		return c04CaseOf(combo, entropy, rapid.Bool().Draw(rt, "wide"))
 	}, c04Run)
